@@ -217,6 +217,13 @@ func (e *Env) StandardRoots(types []Named) []*Root {
 		req9.Fields = append(req9.Fields, &idl.Field{ID: int32(i), ExplicitID: true, Name: fmt.Sprintf("r%d", i), Type: i32, Req: idl.ReqRequired})
 	}
 	e.Main.Add(req9)
+	// field ids in every spelling the grammar allows (decimal with leading zeros, hex, octal)
+	spelled := &idl.Struct{Cat: "struct", Name: "SpelledIds", Fields: []*idl.Field{
+		{ID: 10, ExplicitID: true, IDText: "010", Name: "ten", Type: i32}, {ID: 17, ExplicitID: true, IDText: "0017", Name: "seventeen", Type: idl.T(idl.String), Req: idl.ReqOptional},
+		{ID: 8, ExplicitID: true, IDText: "08", Name: "eight", Type: i32, Req: idl.ReqRequired}, {Name: "nine", Type: i32}, {ID: 32, ExplicitID: true, IDText: "0x20", Name: "hex", Type: i32},
+		{ID: 64, ExplicitID: true, IDText: "0o100", Name: "oct", Type: i32}, {ID: -10, ExplicitID: true, IDText: "-010", Name: "negten", Type: i32, Req: idl.ReqOptional}}}
+	e.Main.Add(spelled)
+	roots = append(roots, &Root{Name: "SpelledIds", S: spelled})
 	roots = append(roots, &Root{Name: "Wide", S: wide}, &Root{Name: "Node", S: node}, &Root{Name: "Req9", S: req9}, &Root{Name: "U", S: e.U}, &Root{Name: "X", S: e.X}, &Root{Name: "Inner", S: e.Inner})
 	return roots
 }
